@@ -15,7 +15,7 @@ ASSUME = ("Assumed (listed per run in evidence.coverage.trusted_base): contracts
 CHECKS = {
     "C01": ("proof",
             "IFORMContour._compute and ISORMContour._compute are verified against the abstract DistLike interface for every admissible conditional_on structure of 2-4 variables "
-            "(symbolic n_points, alpha) and IFORM also for a SYMBOLIC number of variables (loop invariant): beta, shapes, the Rosenblatt clause (same row, declared column), radius, 2-D angle grid, "
+            "(symbolic n_points, alpha) and both also for a SYMBOLIC number of variables and an arbitrary admissible conditional_on (loop invariants through an arbitrary fixed cell): beta, shapes, the Rosenblatt clause (same row, declared column), radius, 2-D angle grid, "
             "first point = marginal quantile; ISORM's inner loop by invariant. NSphere: unit-norm rows of _random_unit_sphere_points and preserved by _relax_points (declared pre: no coincident points). "
             "Bounded: the real models/NSphere are run on seeded cases (distinct directions for n_dim>=3).",
             ASSUME + "DistLike laws (CDF(ICDF(p))=p, monotone) are refined by the family contracts of C05/C08. 'Directions distinct' for n_dim >= 3 is a bounded check.",
